@@ -24,7 +24,7 @@ Definition C11_expected_register : register_mode := RegFresh.
                   C11-emit-units)
       EmExact     after fixes/C11-emitted-numbers-imports-units.diff
     tools/c11_emit_switch.py rewrites this line and known_findings.d/C11.json consistently. *)
-Definition C11_expected_emit : emit_mode := EmSympy15.
+Definition C11_expected_emit : emit_mode := EmExact.
 
 Definition C11_facts (r : register_mode) : gen_facts :=
   mkGenFacts KsInit KsInit KsPlain KsPlain KsRxnStoich r true true
